@@ -376,11 +376,24 @@ one or two sites, `f₁` starts at `lo`, `f_k` ends at `hi`, consecutive interva
 (then `bᵢ` is the backward (`plus`) update of the site `s`) or are adjacent (then `bᵢ` is the backward update of the
 bond between them). -/
 def isChain (lo hi : Nat) : List Upd → Bool
-  | [.site a b .minus] => a == lo && (b == a || b == a + 1) && b == hi
-  | .site a b .minus :: .site c d .plus :: rest =>
-    a == lo && (b == a || b == a + 1) && c == b && d == b && isChain b hi rest
-  | .site a b .minus :: .bond m .plus :: rest =>
-    a == lo && (b == a || b == a + 1) && m == b + 1 && isChain (b + 1) hi rest
+  | .site a b .minus :: rest =>
+    a == lo && (b == a || b == a + 1) &&
+      (match rest with
+       | [] => b == hi
+       | .site c d .plus :: rest' => c == b && d == b && isChain b hi rest'
+       | .bond m .plus :: rest' => m == b + 1 && isChain (b + 1) hi rest'
+       | _ => false)
+  | _ => false
+
+/-- the same structure read downwards: `f₁` ends (upper end) at `hi`, the last `f` starts at `lo` -/
+def isChainDown (hi lo : Nat) : List Upd → Bool
+  | .site a b .minus :: rest =>
+    b == hi && (b == a || b == a + 1) &&
+      (match rest with
+       | [] => a == lo
+       | .site c d .plus :: rest' => c == a && d == a && isChainDown a lo rest'
+       | .bond m .plus :: rest' => m == a && 1 ≤ a && isChainDown (a - 1) lo rest'
+       | _ => false)
   | _ => false
 
 /-- mirror image of a half sweep (the same updates in the opposite order) -/
